@@ -4,7 +4,7 @@ CONSTANTS
   BoundSel = {1,2,3}
   FactorSel = {1,2}
   PriorSel = {1,2,3,4}
-  ModeSel = {1,2,3,4,5,6,7}
+  ModeSel = {1,2,3,5,6}
   KSel = {2,4}
   MaxLevel = 6
   PriorTable = "persist_user_only"
